@@ -12,13 +12,15 @@ def HandleOkC (L : List Ent) (nIno : Nat) (id : Nat) (h : Handle) : Prop :=
   h.lockSer < h.nd ∧ h.lockIno < nIno ∧
   (∀ n k, h.stg = some (n, k) → n ≠ h.lockSer ∧ k < nIno) ∧
   match h.phase with
-  | .opening => h.stg = none
-  | .opened => True
-  | .locked => ⟨id, h.lockSer, h.lockIno, .ex⟩ ∈ L
-  | .reader => ⟨id, h.lockSer, h.lockIno, .sh⟩ ∈ L
-  | .live => ⟨id, h.lockSer, h.lockIno, .ex⟩ ∈ L
-  | .staged => ⟨id, h.lockSer, h.lockIno, .ex⟩ ∈ L
-  | .renamed => ⟨id, h.lockSer, h.lockIno, .ex⟩ ∈ L
+  | .opening => h.stg = none ∧ h.mode = none
+  | .opened => h.mode = none
+  | .locked => h.mode = some .ex ∧ (h.lost = false → ⟨id, h.lockSer, h.lockIno, .ex⟩ ∈ L)
+  | .reader => h.mode = some .sh ∧ (h.lost = false → ⟨id, h.lockSer, h.lockIno, .sh⟩ ∈ L)
+  | .live => h.mode = some .ex ∧ (h.lost = false → ⟨id, h.lockSer, h.lockIno, .ex⟩ ∈ L)
+  | .staged => h.mode = some .ex ∧ (h.lost = false → ⟨id, h.lockSer, h.lockIno, .ex⟩ ∈ L)
+  | .renamed => h.mode = some .ex ∧ (h.lost = false → ⟨id, h.lockSer, h.lockIno, .ex⟩ ∈ L)
+  | .downgrading => h.mode = some .ex
+  | .upgrading => h.mode = some .sh
 
 /-- The inductive invariant of the current protocol. -/
 structure InvC (s : State) : Prop where
@@ -28,22 +30,31 @@ structure InvC (s : State) : Prop where
   hOk : ∀ id h, s.hnd id = some h → HandleOkC s.locks s.nIno id h
 
 theorem HandleOkC.writerLock {L nIno id h} (ok : HandleOkC L nIno id h)
-    (hw : h.phase.writer = true) : ⟨id, h.lockSer, h.lockIno, .ex⟩ ∈ L := by
+    (hw : h.phase.writer = true) (hl : h.lost = false) : ⟨id, h.lockSer, h.lockIno, .ex⟩ ∈ L := by
   obtain ⟨_, _, _, ok⟩ := ok
-  cases hp : h.phase <;> simp [hp, Phase.writer] at ok hw <;> exact ok
+  cases hp : h.phase <;> simp only [hp, Phase.writer] at ok hw <;> first | exact ok.2 hl | cases hw
+
+/-- the belief never over-claims: outside a downgrade call, a handle whose `FileLock::mode()` says
+    Exclusive (and no switch of which timed out) holds the exclusive flock; a handle inside or after
+    an upgrade attempt that has not been granted still says Shared -/
+theorem HandleOkC.belief {L nIno id h} (ok : HandleOkC L nIno id h) :
+    (h.mode = some .ex → h.phase ≠ .downgrading → h.lost = false →
+      ⟨id, h.lockSer, h.lockIno, .ex⟩ ∈ L) ∧
+    (h.phase = .upgrading ∨ h.phase = .reader → h.mode = some .sh) := by
+  obtain ⟨_, _, _, ok⟩ := ok
+  refine ⟨?_, ?_⟩
+  · intro h1 h2 h3
+    cases hp : h.phase <;> simp only [hp] at ok h2 <;> simp_all
+  · intro h1
+    cases hp : h.phase <;> simp only [hp] at ok h1 <;> simp_all
 
 theorem HandleOkC.frame {L L' : List Ent} {n n' id : Nat} {h : Handle}
     (ok : HandleOkC L n id h) (hL : ∀ e ∈ L, e.owner = id → e ∈ L') (hn : n ≤ n') :
     HandleOkC L' n' id h := by
   obtain ⟨h1, h2, h3, ok⟩ := ok
   refine ⟨h1, Nat.lt_of_lt_of_le h2 hn, fun a b hs => ⟨(h3 a b hs).1, Nat.lt_of_lt_of_le (h3 a b hs).2 hn⟩, ?_⟩
-  cases hp : h.phase <;> simp only [hp] at ok ⊢
-  · exact ok
-  · exact hL _ ok rfl
-  · exact hL _ ok rfl
-  · exact hL _ ok rfl
-  · exact hL _ ok rfl
-  · exact hL _ ok rfl
+  cases hp : h.phase <;> simp only [hp] at ok ⊢ <;>
+    first | exact ok | exact ⟨ok.1, fun hl => hL _ (ok.2 hl) rfl⟩
 
 theorem InvC.update {s : State} (inv : InvC s) (s' : State) (h : Nat)
     (hc : Compat s'.locks) (hi : ∀ e ∈ s'.locks, e.ino < s'.nIno)
@@ -110,9 +121,9 @@ theorem stepC_openFd2 {s : State} (inv : InvC s) (h : Nat) :
         cases hx
         obtain ⟨_, _, _, o4⟩ := ok
         simp only [hph] at o4
-        refine ⟨Nat.lt_succ_self _, inv.dirLt _ i hdir, ?_, trivial⟩
+        refine ⟨Nat.lt_succ_self _, inv.dirLt _ i hdir, ?_, o4.2⟩
         intro n k hs
-        simp only [o4] at hs
+        simp only [o4.1] at hs
         cases hs
       · refine inv.update _ h inv.compat inv.inoLt inv.dirLt (Nat.le_refl _) (fun _ he _ => he)
           (fun id hne => updHnd_other' s h _ id hne) ?_
@@ -144,7 +155,7 @@ theorem stepC_flockEx {s : State} (inv : InvC s) (h : Nat) :
         cases hx
         refine ⟨ok.1, ok.2.1, ok.2.2.1, ?_⟩
         simp only [Proto.current]
-        exact mem_setLock.mpr (Or.inl rfl)
+        exact ⟨trivial, fun _ => mem_setLock.mpr (Or.inl rfl)⟩
     · exact inv
   · exact inv
 
@@ -168,7 +179,7 @@ theorem stepC_flockSh {s : State} (inv : InvC s) (h : Nat) :
       · intro x hx
         simp only [updHnd_self'] at hx
         cases hx
-        exact ⟨ok.1, ok.2.1, ok.2.2.1, mem_setLock.mpr (Or.inl rfl)⟩
+        exact ⟨ok.1, ok.2.1, ok.2.2.1, rfl, fun _ => mem_setLock.mpr (Or.inl rfl)⟩
     · exact inv
   · exact inv
 
@@ -319,9 +330,137 @@ theorem stepC_abort {s : State} (inv : InvC s) (h : Nat) :
         intro x hx
         simp only [updHnd_self'] at hx
         cases hx
-        exact ⟨o1, o2, fun _ _ hs => (by cases hs),
-          mem_unlockDesc.mpr ⟨o4, fun hh => (o3 n k hstg).1 hh.2.symm⟩⟩
+        exact ⟨o1, o2, fun _ _ hs => (by cases hs), o4.1,
+          fun hl => mem_unlockDesc.mpr ⟨o4.2 hl, fun hh => (o3 n k hstg).1 hh.2.symm⟩⟩
       · exact inv
+    · exact inv
+  · exact inv
+
+theorem stepC_dgUnlock {s : State} (inv : InvC s) (h : Nat) :
+    InvC (step .current s (.dgUnlock h)) := by
+  simp only [step]
+  split
+  · rename_i hd hh
+    have ok := inv.hOk h hd hh
+    split
+    · rename_i hc
+      obtain ⟨o1, o2, o3, o4⟩ := ok
+      simp only [hc.2.1] at o4
+      refine inv.update _ h (inv.compat.of_unlockDesc h hd.lockSer)
+        (fun e he => inv.inoLt e (mem_unlockDesc.mp he).1) inv.dirLt (Nat.le_refl _)
+        (fun e he hne => mem_unlockDesc.mpr ⟨he, fun hh => hne hh.1⟩)
+        (fun id hne => updHnd_other' s h _ id hne) ?_
+      intro x hx
+      simp only [updHnd_self'] at hx
+      cases hx
+      exact ⟨o1, o2, o3, o4.1⟩
+    · exact inv
+  · exact inv
+
+theorem stepC_ugUnlock {s : State} (inv : InvC s) (h : Nat) :
+    InvC (step .current s (.ugUnlock h)) := by
+  simp only [step]
+  split
+  · rename_i hd hh
+    have ok := inv.hOk h hd hh
+    split
+    · rename_i hc
+      obtain ⟨o1, o2, o3, o4⟩ := ok
+      simp only [hc.2] at o4
+      refine inv.update _ h (inv.compat.of_unlockDesc h hd.lockSer)
+        (fun e he => inv.inoLt e (mem_unlockDesc.mp he).1) inv.dirLt (Nat.le_refl _)
+        (fun e he hne => mem_unlockDesc.mpr ⟨he, fun hh => hne hh.1⟩)
+        (fun id hne => updHnd_other' s h _ id hne) ?_
+      intro x hx
+      simp only [updHnd_self'] at hx
+      cases hx
+      exact ⟨o1, o2, o3, o4.1⟩
+    · exact inv
+  · exact inv
+
+theorem stepC_dgLock {s : State} (inv : InvC s) (h : Nat) :
+    InvC (step .current s (.dgLock h)) := by
+  simp only [step]
+  split
+  · rename_i hd hh
+    split
+    · rename_i hc
+      obtain ⟨_, hph, hg⟩ := hc
+      have ok := inv.hOk h hd hh
+      refine inv.update _ h (inv.compat.of_setLock hg) ?_ inv.dirLt (Nat.le_refl _) ?_
+        (fun id hne => updHnd_other' s h _ id hne) ?_
+      · intro e he
+        rcases mem_setLock.mp he with rfl | ⟨heL, _⟩
+        · exact ok.2.1
+        · exact inv.inoLt e heL
+      · intro e he hne
+        exact mem_setLock.mpr (Or.inr ⟨he, fun hh => hne hh.1⟩)
+      · intro x hx
+        simp only [updHnd_self'] at hx
+        cases hx
+        exact ⟨ok.1, ok.2.1, ok.2.2.1, rfl, fun _ => mem_setLock.mpr (Or.inl rfl)⟩
+    · exact inv
+  · exact inv
+
+theorem stepC_ugLock {s : State} (inv : InvC s) (h : Nat) :
+    InvC (step .current s (.ugLock h)) := by
+  simp only [step]
+  split
+  · rename_i hd hh
+    split
+    · rename_i hc
+      obtain ⟨_, hph, hg⟩ := hc
+      have ok := inv.hOk h hd hh
+      refine inv.update _ h (inv.compat.of_setLock hg) ?_ inv.dirLt (Nat.le_refl _) ?_
+        (fun id hne => updHnd_other' s h _ id hne) ?_
+      · intro e he
+        rcases mem_setLock.mp he with rfl | ⟨heL, _⟩
+        · exact ok.2.1
+        · exact inv.inoLt e heL
+      · intro e he hne
+        exact mem_setLock.mpr (Or.inr ⟨he, fun hh => hne hh.1⟩)
+      · intro x hx
+        simp only [updHnd_self'] at hx
+        cases hx
+        exact ⟨ok.1, ok.2.1, ok.2.2.1, rfl, fun _ => mem_setLock.mpr (Or.inl rfl)⟩
+    · exact inv
+  · exact inv
+
+theorem stepC_dgFail {s : State} (inv : InvC s) (h : Nat) :
+    InvC (step .current s (.dgFail h)) := by
+  simp only [step]
+  split
+  · rename_i hd hh
+    have ok := inv.hOk h hd hh
+    split
+    · rename_i hc
+      obtain ⟨o1, o2, o3, o4⟩ := ok
+      simp only [hc.2] at o4
+      refine inv.update _ h inv.compat inv.inoLt inv.dirLt (Nat.le_refl _) (fun _ he _ => he)
+        (fun id hne => updHnd_other' s h _ id hne) ?_
+      intro x hx
+      rw [updHnd_self'] at hx
+      cases hx
+      exact ⟨o1, o2, o3, o4, fun hl => (by cases hl)⟩
+    · exact inv
+  · exact inv
+
+theorem stepC_ugFail {s : State} (inv : InvC s) (h : Nat) :
+    InvC (step .current s (.ugFail h)) := by
+  simp only [step]
+  split
+  · rename_i hd hh
+    have ok := inv.hOk h hd hh
+    split
+    · rename_i hc
+      obtain ⟨o1, o2, o3, o4⟩ := ok
+      simp only [hc.2] at o4
+      refine inv.update _ h inv.compat inv.inoLt inv.dirLt (Nat.le_refl _) (fun _ he _ => he)
+        (fun id hne => updHnd_other' s h _ id hne) ?_
+      intro x hx
+      rw [updHnd_self'] at hx
+      cases hx
+      exact ⟨o1, o2, o3, o4, fun hl => (by cases hl)⟩
     · exact inv
   · exact inv
 
@@ -340,6 +479,12 @@ theorem stepC_inv {s : State} (inv : InvC s) (st : Step) : InvC (step .current s
   | finish h => exact stepC_finish inv h
   | abort h => exact stepC_abort inv h
   | drop h => exact stepC_drop inv h
+  | dgUnlock h => exact stepC_dgUnlock inv h
+  | dgLock h => exact stepC_dgLock inv h
+  | dgFail h => exact stepC_dgFail inv h
+  | ugUnlock h => exact stepC_ugUnlock inv h
+  | ugLock h => exact stepC_ugLock inv h
+  | ugFail h => exact stepC_ugFail inv h
 
 theorem init_invC : InvC init :=
   ⟨fun _ h => (by cases h), fun _ h => (by cases h), fun _ _ h => (by cases h),
@@ -353,11 +498,12 @@ theorem runC_inv {s : State} (inv : InvC s) (t : List Step) : InvC (run .current
 /-- two live writers never hold their locks on the same inode (current protocol, ONE state) -/
 theorem InvC.lockInoDistinct {s : State} (inv : InvC s) {a b : Nat} {ha hb : Handle}
     (h1 : s.hnd a = some ha) (h2 : s.hnd b = some hb)
-    (w1 : ha.phase.writer = true) (w2 : hb.phase.writer = true) (hne : a ≠ b) :
+    (w1 : ha.phase.writer = true) (w2 : hb.phase.writer = true)
+    (l1 : ha.lost = false) (l2 : hb.lost = false) (hne : a ≠ b) :
     ha.lockIno ≠ hb.lockIno := by
   intro heq
-  have e1 := (inv.hOk a ha h1).writerLock w1
-  have e2 := (inv.hOk b hb h2).writerLock w2
+  have e1 := (inv.hOk a ha h1).writerLock w1 l1
+  have e2 := (inv.hOk b hb h2).writerLock w2 l2
   have := (inv.compat _ e1 _ e2 heq (Or.inl hne)).1
   simp at this
 
@@ -366,26 +512,33 @@ def Step.isRename : Step → Bool
   | .rename _ => true
   | _ => false
 
+def Step.isDgFail : Step → Bool
+  | .dgFail _ => true
+  | _ => false
+
 /-- "no commit has replaced any file yet": every descriptor is on the inode its path names -/
 def NR (s : State) : Prop :=
   ∀ id h, s.hnd id = some h →
-    s.dir h.path = some h.fileIno ∧ (h.phase ≠ .opening → h.lockIno = h.fileIno) ∧ h.phase ≠ .renamed
+    s.dir h.path = some h.fileIno ∧ (h.phase ≠ .opening → h.lockIno = h.fileIno) ∧ h.phase ≠ .renamed ∧
+    (h.lost = true → h.phase = .reader ∨ h.phase = .upgrading)
 
 theorem NR.update {s : State} (nr : NR s) (s' : State) (h : Nat)
     (hdir : ∀ q i, s.dir q = some i → s'.dir q = some i)
     (hoth : ∀ id, id ≠ h → s'.hnd id = s.hnd id)
     (hnew : ∀ x, s'.hnd h = some x →
-      s'.dir x.path = some x.fileIno ∧ (x.phase ≠ .opening → x.lockIno = x.fileIno) ∧ x.phase ≠ .renamed) :
+      s'.dir x.path = some x.fileIno ∧ (x.phase ≠ .opening → x.lockIno = x.fileIno) ∧ x.phase ≠ .renamed ∧
+      (x.lost = true → x.phase = .reader ∨ x.phase = .upgrading)) :
     NR s' := by
   intro id hh hid
   by_cases e : id = h
   · subst e; exact hnew hh hid
   · rw [hoth id e] at hid
-    obtain ⟨a, b, c⟩ := nr id hh hid
-    exact ⟨hdir _ _ a, b, c⟩
+    obtain ⟨a, b, c, d⟩ := nr id hh hid
+    exact ⟨hdir _ _ a, b, c, d⟩
 
 /-- a step that is not a rename keeps every descriptor on the inode its path names -/
-theorem stepNR {s : State} (nr : NR s) (st : Step) (hst : st.isRename = false) :
+theorem stepNR {s : State} (nr : NR s) (st : Step) (hst : st.isRename = false)
+    (hdf : st.isDgFail = false) :
     NR (step .current s st) := by
   cases st with
   | rename r => simp [Step.isRename] at hst
@@ -395,8 +548,8 @@ theorem stepNR {s : State} (nr : NR s) (st : Step) (hst : st.isRename = false) :
       · exact nr
       · rename_i hnone
         intro id hh hid
-        obtain ⟨a, b, c⟩ := nr id hh hid
-        refine ⟨?_, b, c⟩
+        obtain ⟨a, b, c, d⟩ := nr id hh hid
+        refine ⟨?_, b, c, d⟩
         simp only [updDir]
         split
         · rename_i heq; rw [heq, hnone] at a; cases a
@@ -409,16 +562,17 @@ theorem stepNR {s : State} (nr : NR s) (st : Step) (hst : st.isRename = false) :
         intro x hx
         rw [updHnd_self'] at hx
         cases hx
-        refine ⟨hdir, fun _ => rfl, ?_⟩
+        refine ⟨hdir, fun _ => rfl, ?_, fun hl => (by cases hl)⟩
         cases two <;> simp
       · exact nr
   | openFd2 h =>
       simp only [step]
       split
       · rename_i hd hh
-        obtain ⟨a, b, c⟩ := nr h hd hh
+        obtain ⟨a, b, c, d⟩ := nr h hd hh
         split
-        · split
+        · rename_i hph
+          split
           · rename_i i hdir
             refine nr.update _ h (fun _ _ hq => hq) (fun id hne => updHnd_other' s h _ id hne) ?_
             intro x hx
@@ -426,7 +580,7 @@ theorem stepNR {s : State} (nr : NR s) (st : Step) (hst : st.isRename = false) :
             cases hx
             rw [a] at hdir
             cases hdir
-            exact ⟨a, fun _ => rfl, by simp⟩
+            exact ⟨a, fun _ => rfl, by simp, fun hl => by have := d hl; rw [hph] at this; simp at this⟩
           · refine nr.update _ h (fun _ _ hq => hq) (fun id hne => updHnd_other' s h _ id hne) ?_
             intro x hx
             rw [updHnd_self'] at hx
@@ -437,35 +591,35 @@ theorem stepNR {s : State} (nr : NR s) (st : Step) (hst : st.isRename = false) :
       simp only [step]
       split
       · rename_i hd hh
-        obtain ⟨a, b, c⟩ := nr h hd hh
+        obtain ⟨a, b, c, d⟩ := nr h hd hh
         split
         · rename_i hc
           refine nr.update _ h (fun _ _ hq => hq) (fun id hne => updHnd_other' s h _ id hne) ?_
           intro x hx
           simp only [updHnd_self'] at hx
           cases hx
-          exact ⟨a, fun _ => b (by rw [hc.1]; decide), by simp [Proto.current]⟩
+          exact ⟨a, fun _ => b (by rw [hc.1]; decide), by simp [Proto.current], fun hl => by have := d hl; rw [hc.1] at this; simp at this⟩
         · exact nr
       · exact nr
   | flockSh h =>
       simp only [step]
       split
       · rename_i hd hh
-        obtain ⟨a, b, c⟩ := nr h hd hh
+        obtain ⟨a, b, c, d⟩ := nr h hd hh
         split
         · rename_i hc
           refine nr.update _ h (fun _ _ hq => hq) (fun id hne => updHnd_other' s h _ id hne) ?_
           intro x hx
           simp only [updHnd_self'] at hx
           cases hx
-          exact ⟨a, fun _ => b (by rw [hc.1]; decide), by simp⟩
+          exact ⟨a, fun _ => b (by rw [hc.1]; decide), by simp, fun hl => by have := d hl; rw [hc.1] at this; simp at this⟩
         · exact nr
       · exact nr
   | validate h =>
       simp only [step]
       split
       · rename_i hd hh
-        obtain ⟨a, b, c⟩ := nr h hd hh
+        obtain ⟨a, b, c, d⟩ := nr h hd hh
         split
         · rename_i hph
           split
@@ -473,7 +627,7 @@ theorem stepNR {s : State} (nr : NR s) (st : Step) (hst : st.isRename = false) :
             intro x hx
             rw [updHnd_self'] at hx
             cases hx
-            exact ⟨a, fun _ => b (by rw [hph]; decide), by simp⟩
+            exact ⟨a, fun _ => b (by rw [hph]; decide), by simp, fun hl => by have := d hl; rw [hph] at this; simp at this⟩
           · refine nr.update _ h (fun _ _ hq => hq) (fun id hne => updHnd_other' s h _ id hne) ?_
             intro x hx
             simp only [updHnd_self'] at hx
@@ -496,21 +650,21 @@ theorem stepNR {s : State} (nr : NR s) (st : Step) (hst : st.isRename = false) :
       simp only [step]
       split
       · rename_i hd hh
-        obtain ⟨a, b, c⟩ := nr h hd hh
+        obtain ⟨a, b, c, d⟩ := nr h hd hh
         split
         · rename_i hc
           refine nr.update _ h (fun _ _ hq => hq) (fun id hne => updHnd_other' s h _ id hne) ?_
           intro x hx
           simp only [updHnd_self'] at hx
           cases hx
-          exact ⟨a, fun _ => b (by rw [hc.1]; decide), by simp⟩
+          exact ⟨a, fun _ => b (by rw [hc.1]; decide), by simp, fun hl => by have := d hl; rw [hc.1] at this; simp at this⟩
         · exact nr
       · exact nr
   | finish h =>
       simp only [step]
       split
       · rename_i hd hh
-        obtain ⟨a, b, c⟩ := nr h hd hh
+        obtain ⟨a, b, c, d⟩ := nr h hd hh
         split
         · rename_i hph
           exact absurd hph c
@@ -520,7 +674,7 @@ theorem stepNR {s : State} (nr : NR s) (st : Step) (hst : st.isRename = false) :
       simp only [step]
       split
       · rename_i hd hh
-        obtain ⟨a, b, c⟩ := nr h hd hh
+        obtain ⟨a, b, c, d⟩ := nr h hd hh
         split
         · rename_i hph
           split
@@ -528,7 +682,7 @@ theorem stepNR {s : State} (nr : NR s) (st : Step) (hst : st.isRename = false) :
             intro x hx
             simp only [updHnd_self'] at hx
             cases hx
-            exact ⟨a, fun _ => b (by rw [hph]; decide), by simp⟩
+            exact ⟨a, fun _ => b (by rw [hph]; decide), by simp, fun hl => by have := d hl; rw [hph] at this; simp at this⟩
           · exact nr
         · exact nr
       · exact nr
@@ -540,14 +694,87 @@ theorem stepNR {s : State} (nr : NR s) (st : Step) (hst : st.isRename = false) :
         simp only [updHnd_self'] at hx
         cases hx
       · exact nr
+  | dgUnlock h =>
+      simp only [step]
+      split
+      · rename_i hd hh
+        obtain ⟨a, b, c, d⟩ := nr h hd hh
+        split
+        · rename_i hc
+          refine nr.update _ h (fun _ _ hq => hq) (fun id hne => updHnd_other' s h _ id hne) ?_
+          intro x hx
+          simp only [updHnd_self'] at hx
+          cases hx
+          exact ⟨a, fun _ => b (by rw [hc.2.1]; decide), by simp, fun hl => by have := d hl; rw [hc.2.1] at this; simp at this⟩
+        · exact nr
+      · exact nr
+  | dgLock h =>
+      simp only [step]
+      split
+      · rename_i hd hh
+        obtain ⟨a, b, c, d⟩ := nr h hd hh
+        split
+        · rename_i hc
+          refine nr.update _ h (fun _ _ hq => hq) (fun id hne => updHnd_other' s h _ id hne) ?_
+          intro x hx
+          simp only [updHnd_self'] at hx
+          cases hx
+          exact ⟨a, fun _ => b (by rw [hc.2.1]; decide), by simp, fun hl => (by cases hl)⟩
+        · exact nr
+      · exact nr
+  | dgFail h => simp [Step.isDgFail] at hdf
+  | ugUnlock h =>
+      simp only [step]
+      split
+      · rename_i hd hh
+        obtain ⟨a, b, c, d⟩ := nr h hd hh
+        split
+        · rename_i hc
+          refine nr.update _ h (fun _ _ hq => hq) (fun id hne => updHnd_other' s h _ id hne) ?_
+          intro x hx
+          simp only [updHnd_self'] at hx
+          cases hx
+          exact ⟨a, fun _ => b (by rw [hc.2]; decide), by simp, fun _ => Or.inr rfl⟩
+        · exact nr
+      · exact nr
+  | ugLock h =>
+      simp only [step]
+      split
+      · rename_i hd hh
+        obtain ⟨a, b, c, d⟩ := nr h hd hh
+        split
+        · rename_i hc
+          refine nr.update _ h (fun _ _ hq => hq) (fun id hne => updHnd_other' s h _ id hne) ?_
+          intro x hx
+          simp only [updHnd_self'] at hx
+          cases hx
+          exact ⟨a, fun _ => b (by rw [hc.2.1]; decide), by simp, fun hl => (by cases hl)⟩
+        · exact nr
+      · exact nr
+  | ugFail h =>
+      simp only [step]
+      split
+      · rename_i hd hh
+        obtain ⟨a, b, c, d⟩ := nr h hd hh
+        split
+        · rename_i hc
+          refine nr.update _ h (fun _ _ hq => hq) (fun id hne => updHnd_other' s h _ id hne) ?_
+          intro x hx
+          simp only [updHnd_self'] at hx
+          cases hx
+          exact ⟨a, fun _ => b (by rw [hc.2]; decide), by simp, fun _ => Or.inl rfl⟩
+        · exact nr
+      · exact nr
 
 theorem init_NR : NR init := fun _ _ h => (by cases h)
 
-theorem runNR {s : State} (nr : NR s) (t : List Step) (ht : ∀ st ∈ t, st.isRename = false) :
+theorem runNR {s : State} (nr : NR s) (t : List Step)
+    (ht : ∀ st ∈ t, st.isRename = false ∧ st.isDgFail = false) :
     NR (run .current s t) := by
   induction t generalizing s with
   | nil => exact nr
   | cons st t ih =>
-      exact ih (stepNR nr st (ht st (List.mem_cons_self))) (fun x hx => ht x (List.mem_cons_of_mem _ hx))
+      exact ih (stepNR nr st (ht st (List.mem_cons_self)).1 (ht st (List.mem_cons_self)).2)
+        (fun x hx => ht x (List.mem_cons_of_mem _ hx))
 
 end Mv.Lock
